@@ -26,6 +26,7 @@ type GenCfg struct {
 	Preflight              bool
 	Local                  bool
 	Resources              bool
+	ChunkFiles bool // splits give their chunks files
 	VMem bool // stages also ask for virtual address space
 	Volatile               bool
 	Retain                 bool
@@ -205,6 +206,11 @@ func (g *gen) genStage() {
 		s.ChunkIns = []Field{{"c0", Ty{Base: "int"}}}
 		if g.pick(2) == 0 {
 			s.ChunkIns = append(s.ChunkIns, Field{"c1", Ty{Base: "string"}})
+		}
+		if g.cfg.ChunkFiles && g.pick(2) == 0 {
+			// the split hands each chunk a file of its own (written below the split's
+			// own files directory)
+			s.ChunkIns = append(s.ChunkIns, Field{"cf", Ty{Base: "file"}})
 		}
 		s.ChunkOuts = []Field{{"p0", g.primType()}}
 	}
